@@ -70,6 +70,7 @@ def valStr : Val → String
   | .map m => "m{" ++ ",".intercalate (m.map (fun (k, v) => hexOut k ++ "=" ++ hexOut v)) ++ "}"
   | .num s => "n" ++ hexOut s
   | .numLit s => "l" ++ s
+  | _ => "?"
 def rowStr (r : Row) : String := " ".intercalate (r.map (fun (k, v) => k ++ ":" ++ valStr v))
 
 def firstDiff (a b : Table) (i : Nat := 0) : String :=
